@@ -7,10 +7,15 @@
    (2) "every other node keeps type, content, position, order; layout changes only by the
         separator in front of the 2nd.. operands of each resolved operation"
                                                                       C10_structure + C10_copy_keeps
+                                                                      + C10_content_kept
        what the copy does change, stated not hidden: the attached name (_luqum_name) is dropped on
        every node (the resolved operation is rebuilt by hand, the others go through clone_item);
        clone_item recomputes the defaults of an implicit degree/force and re-normalises an explicit
        boost force — the identity on objects as the constructors build them ([std_node]).
+       So "keeps its content" is NOT unconditional: C10_content_kept says, node by node, that the
+       class is always kept and the content attributes are kept IF AND ONLY IF the node is
+       [std_node] (the narrowest guard); C10_content_needs_std_node is the witness (an implicit
+       fuzzy degree reassigned after construction, replayed on the real code).
    (3) "explicit target: that operation; Lucene-like mode: AND or OR;
         AND throughout when no explicit operator"                     C10_explicit_target, C10_lucene_and_or,
                                                                       C10_lucene_default_and
@@ -21,9 +26,21 @@
        class and meaning, resp. of the node's own content, its enclosing non-boolean nodes and its
        sub-meanings); the theorem holds for every interpretation, Lucene's must/should/must_not
        reading of BoolOperation is one of them.
-   (5) "resolving again changes nothing"                              C10_idempotent
+   (5) "resolving again changes nothing"                              C10_idempotent (no guard: every
+       result is as the constructors build it, whatever the input held)
    (6) "the input tree is not modified": an object-identity fact, outside a value model;
-       checked by snapshots in harness/c10.py only. *)
+       checked by snapshots in harness/c10.py only.
+
+   SCOPE — trees WITHOUT OBJECT SHARING.  [item] is a value: the model has no object identity, and
+   every theorem below is about a tree in which no node object occurs at two positions (what the
+   parser and every transformer of luqum build).  The code is NOT a function of the tree's value in
+   the Lucene-like mode: the memory of the last explicit operator is a dict keyed by `id()` of the
+   outermost non-operation ancestor (`_first_nonop_parent`), which model/Resolver.v represents by
+   that ancestor's PATH.  When one such object occurs at two positions below the same dict, what was
+   remembered inside the first occurrence leaks into the second: known finding F24
+   (known_findings/C10.json; examples C10_F24_* at the end of this file; harness/c10.py feeds trees
+   with shared objects to the code, judges every position against an unshared copy and classifies
+   the deviations by an executable predicate on the input). *)
 Require Import Base Decimal Tree GenTree GenVisitors Visitor Eq Resolver TreeInd ResolverProofs.
 
 (* ---- tie obligation on generated data: no resolver handler unknown to the model *)
@@ -99,8 +116,26 @@ Definition C10_same_meaning_unguarded_statement : Prop :=
 (* resolving the result again — with any valid target and any add_head — returns it unchanged
    (full structural equality: layout, names, flags) *)
 Definition C10_idempotent_statement : Prop :=
-  forall tg ah tg' ah' t r, resolve tg ah t = Some r -> std_attrs t -> valid_target tg' = true ->
+  forall tg ah tg' ah' t r, resolve tg ah t = Some r -> valid_target tg' = true ->
     resolve tg' ah' r = Some r.
+
+(* "every other node keeps its type and content", node by node: at every path a node that is not an
+   implicit operation keeps its class; it keeps its content attributes exactly when it is as the
+   constructors build it.  [std_node] is a guard on THAT node only (not on the tree), and it is the
+   narrowest one (iff). *)
+Definition C10_content_kept_statement : Prop :=
+  forall tg ah t r, resolve tg ah t = Some r ->
+    forall p n n', subtree_at t p = Some n -> subtree_at r p = Some n' -> is_unknown n = false ->
+      cls_of n' = cls_of n /\ ((forall a, get_attr n' a = get_attr n a) <-> std_node n).
+
+(* the same without the guard: false.  Replayed on the real code (/venv/bin/python, PYTHONPATH=/repo):
+   f = Fuzzy(Word('a')); f.degree = Decimal(2); UnknownOperationResolver()(f).degree == Decimal('0.5')
+   (and b = Boost(Word('a'), 2); b.force = Decimal('2.50'): the copy holds Decimal('2.5'), equal as a
+   number, another object content: it prints a^2.5 instead of a^2.50). *)
+Definition C10_content_unguarded_statement : Prop :=
+  forall tg ah t r, resolve tg ah t = Some r ->
+    forall p n n', subtree_at t p = Some n -> subtree_at r p = Some n' -> is_unknown n = false ->
+      forall a, get_attr n' a = get_attr n a.
 
 (* calls on one resolver instance are independent: the k-th result of a sequence of calls is what
    a single call gives on the k-th tree.  Immediate in this pure model ([resolve_calls] gives a call
@@ -171,7 +206,10 @@ Theorem C10_same_meaning_explicit : C10_same_meaning_explicit_statement.
 Proof. exact resolve_same_meaning_explicit. Qed.
 
 Theorem C10_idempotent : C10_idempotent_statement.
-Proof. exact resolve_idempotent. Qed.
+Proof. exact resolve_idempotent_unguarded. Qed.
+
+Theorem C10_content_kept : C10_content_kept_statement.
+Proof. exact resolve_content. Qed.
 
 (* witness: an implicit fuzzy degree 2 *)
 Definition odd_fuzzy : item := Fuzzy meta0 (Term KWord meta0 [97]%N) (mkDec false 2 0) true.
@@ -185,6 +223,13 @@ Theorem C10_meaning_needs_std_attrs : ~ C10_same_meaning_unguarded_statement.
 Proof.
   intros H.
   specialize (H None [32]%N odd_fuzzy _ eq_refl degree_reader (fun _ => KAnd) []).
+  vm_compute in H. discriminate.
+Qed.
+
+Theorem C10_content_needs_std_node : ~ C10_content_unguarded_statement.
+Proof.
+  intros H.
+  specialize (H None [32]%N odd_fuzzy _ eq_refl [] _ _ eq_refl eq_refl eq_refl ADegree).
   vm_compute in H. discriminate.
 Qed.
 
@@ -232,6 +277,40 @@ Example C10_sem_instance :
   sem I (fun _ => KBool) [] (Op KUnknown meta0 [Unary KPlus meta0 (w 97); Unary KProhibit meta0 (w 98)]) = false.
 Proof. vm_compute. reflexivity. Qed.
 
+(* idempotence needs no guard: the odd object of C10_meaning_needs_std_attrs is covered *)
+Example C10_idempotent_on_odd_input :
+  exists r, resolve None [32]%N odd_fuzzy = Some r /\ r <> odd_fuzzy /\ resolve (Some KOr) [] r = Some r.
+Proof. eexists. split; [vm_compute; reflexivity|]. split; [discriminate|vm_compute; reflexivity]. Qed.
+
+Example C10_std_node_nonvacuous :
+  std_node (Fuzzy meta0 (w 97) dec_half true) /\ std_node (Boost meta0 (w 98) (mkDec false 25 (-1)) false) /\
+  ~ std_node odd_fuzzy /\ ~ std_node (Boost meta0 (w 98) (mkDec false 250 (-2)) false).
+Proof. repeat split; try (vm_compute; reflexivity); vm_compute; discriminate. Qed.
+
+(* ---- F24: shared node objects (outside the model: a value has no identity).
+   Python:  g = Group(UnknownOperation(Word("x"), OrOperation(Word("a"), Word("b"))))
+            UnknownOperationResolver()(AndOperation(g, g))
+   As a VALUE the input is [f24_witness]; the model (and the code on two distinct equal Group objects)
+   resolves the implicit operation of both groups to AND: inside each group it comes before the OR. *)
+Definition f24_g : item := Grp KGroup meta0 (Op KUnknown meta0 [w 120; Op KOr meta0 [w 97; w 98]]).
+Definition f24_witness : item := Op KAnd meta0 [f24_g; f24_g].
+Definition f24_res (k : opk) : item :=
+  Grp KGroup meta0 (Op k meta0 [w 120; Op KOr (with_head meta0 [32]%N) [w 97; w 98]]).
+Example C10_F24_model_answer :
+  resolve None [32]%N f24_witness = Some (Op KAnd meta0 [f24_res KAnd; f24_res KAnd]).
+Proof. vm_compute. reflexivity. Qed.
+(* what the real code returns when both operands are the SAME object g (replayed, /venv/bin/python,
+   PYTHONPATH=/repo; transcribed by lib.g_item): the second occurrence is resolved to OR, because
+   id(g) is the key of the memory and the OR met inside the first occurrence is still remembered.
+   Not the model's answer, and not C10's Lucene rule judged position by position. *)
+Definition f24_code_answer : item := Op KAnd meta0 [f24_res KAnd; f24_res KOr].
+Example C10_F24_code_answer_differs :
+  resolve None [32]%N f24_witness <> Some f24_code_answer /\
+  (exists m ops, subtree_at f24_witness [1; 0] = Some (Op KUnknown m ops)) /\
+  (exists m ops, subtree_at f24_code_answer [1; 0] = Some (Op KOr m ops)) /\
+  (exists m ops, subtree_at f24_code_answer [0; 0] = Some (Op KAnd m ops)).
+Proof. split; [vm_compute; discriminate|]. repeat split; eexists _, _; reflexivity. Qed.
+
 Print Assumptions C10_total.
 Print Assumptions C10_invalid_target.
 Print Assumptions C10_no_unknown_left.
@@ -244,4 +323,6 @@ Print Assumptions C10_same_meaning.
 Print Assumptions C10_same_meaning_explicit.
 Print Assumptions C10_meaning_needs_std_attrs.
 Print Assumptions C10_idempotent.
+Print Assumptions C10_content_kept.
+Print Assumptions C10_content_needs_std_node.
 Print Assumptions C10_calls_independent.
